@@ -6,6 +6,7 @@ CONSTANTS
   MaxIssued = 0
   Rebootstrap = TRUE
   Wipeouts = FALSE
+  Collide = FALSE
   Times = {1, 2}
   Design = "atomic"
 SPECIFICATION Spec
